@@ -19,7 +19,7 @@ META = {
              "with >= 1 null-offset edge"),
     "required": ["monitor:type-roundtrip", "monitor:value-roundtrip", "monitor:op-roundtrip",
                  "monitor:param-roundtrip", "monitor:arg-roundtrip", "monitor:sugar-eq",
-                 "monitor:foreign-doc", "monitor:foreign-links-in-memory", "feature:order-edge-at-offset-0", "monitor:doc-route", "feature:null-offset-edge", "feature:funcdefn-params",
+                 "monitor:op-encoding-vs-spec", "monitor:foreign-doc", "monitor:foreign-links-in-memory", "feature:order-edge-at-offset-0", "monitor:doc-route", "feature:null-offset-edge", "feature:funcdefn-params",
                  "feature:block-delta", "feature:custom-description", "feature:extop"],
     "reach": ["hugr._serialization.ops:FuncDefn.deserialize", "hugr._serialization.ops:DataflowBlock.deserialize",
               "hugr._serialization.ops:ExtensionOp.deserialize", "hugr._serialization.tys:Opaque.deserialize",
@@ -416,6 +416,96 @@ def op_nontrivial(c):
     return any(c.get(key) for key in ("delta", "desc", "params", "args", "rows", "ins", "outs", "types"))
 
 
+def wire_op(c):
+    """the document an operation of this descriptor has to be written as (hugr-core's serialized op formats),
+    computed from the descriptor alone; None where no independent expectation is written down (constants: see the
+    value stratum)"""
+    from vf.gen.types import wire_arg, wire_func, wire_poly, wire_row, wire_ty
+
+    k = c["k"]
+
+    def fn(ins, outs, reqs=()):
+        return wire_func(["func", ins, outs, list(reqs)])
+
+    def prelude(name, ins, outs, args):
+        return {"op": "Extension", "extension": "prelude", "name": name, "signature": fn(ins, outs, ["prelude"]),
+                "args": args}
+
+    if k == "Module":
+        return {"op": "Module"}
+    if k == "AliasDecl":
+        return {"op": "AliasDecl", "name": c["name"], "bound": c["b"]}
+    if k == "AliasDefn":
+        return {"op": "AliasDefn", "name": c["name"], "definition": wire_ty(c["ty"])}
+    if k in ("Input", "Output"):
+        return {"op": k, "types": wire_row(c["types"])}
+    if k == "ExitBlock":
+        return {"op": k, "cfg_outputs": wire_row(c["types"])}
+    if k in ("DFG", "CFG", "Case", "CallIndirect"):
+        return {"op": k, "signature": fn(c["ins"], c["outs"], c.get("delta", []) if k == "DFG" else [])}
+    if k == "DataflowBlock":
+        return {"op": k, "inputs": wire_row(c["ins"]), "other_outputs": wire_row(c["other"]),
+                "sum_rows": [wire_row(r) for r in c["rows"]], "extension_delta": list(c["delta"])}
+    if k == "Conditional":
+        return {"op": k, "other_inputs": wire_row(c["other"]), "outputs": wire_row(c["outs"]),
+                "sum_rows": [wire_row(r) for r in c["rows"]]}
+    if k == "TailLoop":
+        return {"op": k, "just_inputs": wire_row(c["just_in"]), "just_outputs": wire_row(c["just_out"]),
+                "rest": wire_row(c["rest"]), "extension_delta": list(c["delta"])}
+    if k == "Tag":
+        return {"op": "Tag", "tag": c["tag"], "variants": [wire_row(r) for r in c["rows"]]}
+    if k == "TagSugar":
+        s = c["sugar"]
+        rows = [[], c["a"]] if s == "Some" else [c["a"], c["b"]]
+        return {"op": "Tag", "tag": {"Some": 1, "Left": 0, "Right": 1, "Continue": 0, "Break": 1}[s],
+                "variants": [wire_row(r) for r in rows]}
+    if k == "MakeTuple":
+        return prelude(k, c["types"], [["tuple", c["types"]]], [{"tya": "Sequence", "elems": [wire_arg(["t", t]) for t in c["types"]]}])
+    if k == "UnpackTuple":
+        return prelude(k, [["tuple", c["types"]]], c["types"], [{"tya": "Sequence", "elems": [wire_arg(["t", t]) for t in c["types"]]}])
+    if k == "Noop":
+        return prelude(k, [c["ty"]], [c["ty"]], [wire_arg(["t", c["ty"]])])
+    if k in ("Call", "LoadFunc"):
+        out = {"op": "Call" if k == "Call" else "LoadFunction", "func_sig": wire_poly(c["params"], c["body"])}
+        if c["params"]:
+            out["type_args"] = [wire_arg(a) for a in c["targs"]]
+            out["instantiation"] = wire_func(c["inst"])
+        else:
+            out["type_args"] = []
+            out["instantiation"] = wire_func(c["body"])
+        return out
+    if k == "LoadConst":
+        return {"op": "LoadConstant", "datatype": wire_ty(c["ty"])}
+    if k == "FuncDefn":
+        # (a function definition is built from rows; it declares no requirements of its own)
+        return {"op": k, "name": c["name"], "signature": wire_poly(c["params"], [*c["body"][:3], []])}
+    if k == "FuncDecl":
+        return {"op": k, "name": "decl", "signature": wire_poly(c["params"], c["body"])}
+    if k == "Custom":
+        return {"op": "Extension", "extension": c["ext"], "name": "op", "signature": fn(c["ins"], c["outs"]),
+                "description": c["desc"], "args": [wire_arg(a) for a in c["args"]]}
+    return None
+
+
+def op_canon(j):
+    """canonical form of an op document for the comparison with wire_op: types canonical, requirement lists as sets,
+    keys the expectation does not mention dropped by the caller"""
+    from vf.oracles import wire
+
+    def walk(x, key=None):
+        if isinstance(x, dict):
+            if "t" in x and x["t"] in ("Sum", "G", "Opaque", "V", "R", "I", "Q", "Alias"):
+                return wire.canon(x)
+            return {k: walk(v, k) for k, v in x.items()}
+        if isinstance(x, list):
+            if key in ("extension_delta", "runtime_reqs"):
+                return sorted(set(x))
+            return [walk(v) for v in x]
+        return x
+
+    return walk(j)
+
+
 def check_op(ctx, c, stratum="op"):
     import hugr._serialization.ops as sops
     from hugr import ops
@@ -426,6 +516,15 @@ def check_op(ctx, c, stratum="op"):
     j = dump_op(op)
     ctx.count("monitor:op-roundtrip")
     k = c["k"]
+    want = wire_op(c)
+    if want is not None:
+        ctx.count("monitor:op-encoding-vs-spec")
+        wj, gj = op_canon(want), op_canon({kk: v for kk, v in j.items() if kk in want})
+        if wj != gj:
+            from vf.oracles.observe import diff
+
+            pth = diff(wj, gj)[0]
+            ctx.disc(None, f"op-encoding-vs-spec[{k}]", [k, pth[0]], pth[1], pth[2], stratum=stratum, case=c)
     if k == "FuncDefn" and c["params"]:
         ctx.feat("feature:funcdefn-params")
     if k == "DataflowBlock" and c["delta"]:
